@@ -35,7 +35,11 @@ impl ThreadPool {
             F: FnOnce() + Send  + 'static,
     {
         let job = Box::new(f);
+        #[cfg(rws_verif)]
+        crate::verif::at(crate::verif::Point::BeforeSend, 0, 0);
         let boxed_send = self.sender.send(job);
+        #[cfg(rws_verif)]
+        crate::verif::at(crate::verif::Point::AfterSend, 0, 0);
         if boxed_send.is_err() {
             eprintln!("unable to send job: {}", boxed_send.err().unwrap());
         } else {
@@ -56,11 +60,17 @@ impl Worker {
 
         let boxed_thread = builder.spawn(move || loop {
 
+            #[cfg(rws_verif)]
+            crate::verif::at(crate::verif::Point::BeforeLock, id, 0);
             let boxed_lock = receiver.lock();
+            #[cfg(rws_verif)]
+            crate::verif::at(crate::verif::Point::LockAcquired, id, 0);
             if boxed_lock.is_err() {
                 eprintln!("Worker {} -> unable to acquire lock {}", id, boxed_lock.err().unwrap());
             } else {
                 let boxed_job = boxed_lock.unwrap().recv();
+                #[cfg(rws_verif)]
+                crate::verif::at(crate::verif::Point::Received, id, 0);
                 if boxed_job.is_err() {
                     eprintln!("Worker {} -> unable to get job to execute {}", id, boxed_job.err().unwrap());
                 } else {
@@ -69,6 +79,8 @@ impl Worker {
                     println!("Worker {} got a job; executing.", id);
 
                     job();
+                    #[cfg(rws_verif)]
+                    crate::verif::at(crate::verif::Point::JobDone, id, 0);
                 }
 
             }
